@@ -4,7 +4,7 @@ verus! {
 /// R12: the crate's key-type trait with its real method set; supertraits (Ord, Clone, Default, Debug, Hash) are
 /// dropped from the bound, `clone` and `hash_value` (supertrait / HashValue provided method) are listed here instead.
 /// The per-type obligations behind these contracts are discharged on the five real key types by Kani (kani_keys.rs).
-pub trait DbMapKeyType: Sized {
+pub trait DbMapKeyType: Sized + Default {
     /// the bytes stored for this key
     spec fn bytes(&self) -> Seq<u8>;
     fn from_bytes(bytes: &[u8]) -> (r: Self)
@@ -133,5 +133,415 @@ proof {
     if self.size.val > acc.len() { lemma_rec_write(b0, bp, o, acc, z); }
     assert(rd(file@.bytes, o, self.size.val as int) =~= acc + z);
 }
+@end
+
+@raw
+verus! {
+/// slot size write_piece asks for when storing a key record (the estimate uses the un-scaled offsets)
+pub open spec fn key_need(key: Seq<u8>, voff: nat, next: nat) -> nat {
+    let p = enc_len(key.len()) + key.len() + enc_len(voff) + enc_len(next);
+    roundup_spec(enc_len(((p + 7) / 8) as nat) + p)
+}
+pub open spec fn key_pre(b: Seq<u8>, pm: PieceMgr, w: HeapW, is_new: bool, off: nat) -> bool {
+    heap_ok(b, pm, w) && (!is_new ==> w.slots.dom().contains(off) && w.slots[off].c is Key)
+}
+pub open spec fn key_at(b: Seq<u8>, pm: PieceMgr, w: HeapW, off: nat) -> bool {
+    heap_ok(b, pm, w) && w.slots.dom().contains(off) && w.slots[off].c is Key
+}
+/// the written offset fields are never wider than the estimate's (offset/8 <= offset)
+pub proof fn lemma_key_fits(klen: nat, voff: nat, next: nat, size: nat)
+    requires klen <= 0x1_0000, voff <= u64::MAX, next <= u64::MAX, size % 8 == 0, size <= u32::MAX,
+        size >= roundup_spec(enc_len(((enc_len(klen) + klen + enc_len(voff) + enc_len(next) + 7) / 8) as nat) + enc_len(klen) + klen + enc_len(voff) + enc_len(next)),
+    ensures enc_len(size / 8) + enc_len(klen) + klen + enc_len(voff / 8) + enc_len(next / 8) <= size
+{
+    let p = enc_len(klen) + klen + enc_len(voff) + enc_len(next);
+    lemma_fits(p, size);
+    assert(enc_len(voff / 8) <= enc_len(voff));
+    assert(enc_len(next / 8) <= enc_len(next));
+}
+} // verus!
+@end
+
+@fn src/filedb/inner/key.rs | impl KeyPieceSize | is_valid_key
+@opts assumed proved_by=kani:u3_is_valid_key
+@requires
+is_slot_size(self.val as nat)
+@ensures
+r
+@end
+
+@fn src/filedb/inner/key.rs | impl<KT: DbMapKeyType> KeyPiece<KT> | with
+@ensures
+r.offset == offset, r.size == size, r.key == key, r.value_offset == value_offset, r.bucket_next_offset == bucket_next_offset
+@end
+
+@fn src/filedb/inner/vfile.rs | impl VarFile | seek_skip_to_piece_key
+@requires
+rec_size_ok(old(self)@.bytes, offset.val as int), offset.val <= old(self)@.bytes.len()
+@ensures
+okh(old(self)@, final(self)@, r), same_but_pos(old(self)@, final(self)@), final(self).piece_mgr == old(self).piece_mgr,
+r is Ok ==> final(self)@.pos == rec_len_pos(old(self)@.bytes, offset.val as int) && r->Ok_0.val == final(self)@.pos
+@entry
+proof { axiom_vu64_dlen(old(self)@.bytes[offset.val as int]); }
+@end
+
+@fn src/filedb/inner/key.rs | impl<KT: DbMapKeyType> VarFileKeyCache<KT> | read_piece
+@serves C01 C15
+@requires
+offset.val != 0, exists|w: HeapW| #[trigger] key_at(old(self).0@.bytes, old(self).0.piece_mgr, w, offset.val as nat)
+@ensures
+okh(old(self).0@, final(self).0@, r), same_but_pos(old(self).0@, final(self).0@), final(self).0.piece_mgr == old(self).0.piece_mgr,
+r is Ok ==> forall|w: HeapW| #[trigger] key_at(old(self).0@.bytes, old(self).0.piece_mgr, w, offset.val as nat) ==> (r->Ok_0.offset == offset && r->Ok_0.size.val == w.slots[offset.val as nat].size && SlotC::Key(r->Ok_0.key.bytes(), r->Ok_0.value_offset.val as nat, r->Ok_0.bucket_next_offset.val as nat) == w.slots[offset.val as nat].c)
+@entry
+let ghost b0 = old(self).0@.bytes;
+let ghost pm = old(self).0.piece_mgr;
+let ghost o = offset.val as nat;
+let ghost w0: HeapW = choose|w: HeapW| #[trigger] key_at(b0, pm, w, o);
+proof {
+    assert(slot_ok(b0, o, w0.slots[o]));
+    lemma_slot_bounds(b0, o, w0.slots[o]); lemma_slot_elim(b0, o, w0.slots[o]);
+    lemma_key_used_decodes(b0, o as int, w0.slots[o].size, w0.slots[o].c->Key_0, w0.slots[o].c->Key_1, w0.slots[o].c->Key_2);
+}
+@exit
+proof {
+    if r__ is Ok {
+        assert forall|w: HeapW| #[trigger] key_at(b0, pm, w, o) implies (r__->Ok_0.offset == offset && r__->Ok_0.size.val == w.slots[offset.val as nat].size && SlotC::Key(r__->Ok_0.key.bytes(), r__->Ok_0.value_offset.val as nat, r__->Ok_0.bucket_next_offset.val as nat) == w.slots[offset.val as nat].c) by {
+            assert(slot_ok(b0, o, w.slots[o]));
+            lemma_slot_elim(b0, o, w.slots[o]);
+            lemma_key_used_decodes(b0, o as int, w.slots[o].size, w.slots[o].c->Key_0, w.slots[o].c->Key_1, w.slots[o].c->Key_2);
+        }
+    }
+}
+@end
+
+@fn src/filedb/inner/key.rs | impl<KT: DbMapKeyType> VarFileKeyCache<KT> | read_piece_only_key_length
+@serves C17
+@requires
+offset.val != 0, exists|w: HeapW| #[trigger] key_at(old(self).0@.bytes, old(self).0.piece_mgr, w, offset.val as nat)
+@ensures
+okh(old(self).0@, final(self).0@, r), same_but_pos(old(self).0@, final(self).0@), final(self).0.piece_mgr == old(self).0.piece_mgr,
+r is Ok ==> forall|w: HeapW| #[trigger] key_at(old(self).0@.bytes, old(self).0.piece_mgr, w, offset.val as nat) ==> r->Ok_0.val == w.slots[offset.val as nat].c->Key_0.len()
+@entry
+let ghost b0 = old(self).0@.bytes;
+let ghost pm = old(self).0.piece_mgr;
+let ghost o = offset.val as nat;
+let ghost w0: HeapW = choose|w: HeapW| #[trigger] key_at(b0, pm, w, o);
+proof {
+    assert(slot_ok(b0, o, w0.slots[o]));
+    lemma_slot_bounds(b0, o, w0.slots[o]); lemma_slot_elim(b0, o, w0.slots[o]);
+    lemma_key_used_decodes(b0, o as int, w0.slots[o].size, w0.slots[o].c->Key_0, w0.slots[o].c->Key_1, w0.slots[o].c->Key_2);
+}
+@exit
+proof {
+    if r__ is Ok {
+        assert forall|w: HeapW| #[trigger] key_at(b0, pm, w, o) implies r__->Ok_0.val == w.slots[offset.val as nat].c->Key_0.len() by {
+            assert(slot_ok(b0, o, w.slots[o]));
+            lemma_slot_elim(b0, o, w.slots[o]);
+            lemma_key_used_decodes(b0, o as int, w.slots[o].size, w.slots[o].c->Key_0, w.slots[o].c->Key_1, w.slots[o].c->Key_2);
+        }
+    }
+}
+@end
+
+@fn src/filedb/inner/key.rs | impl<KT: DbMapKeyType> VarFileKeyCache<KT> | read_piece_only_key_maybeslice
+@serves C01 C15
+@requires
+offset.val != 0, exists|w: HeapW| #[trigger] key_at(old(self).0@.bytes, old(self).0.piece_mgr, w, offset.val as nat)
+@ensures
+okh(old(self).0@, final(self).0@, r), same_but_pos(old(self).0@, final(self).0@), final(self).0.piece_mgr == old(self).0.piece_mgr,
+r is Ok ==> forall|w: HeapW| #[trigger] key_at(old(self).0@.bytes, old(self).0.piece_mgr, w, offset.val as nat) ==> r->Ok_0@ == w.slots[offset.val as nat].c->Key_0
+@entry
+let ghost b0 = old(self).0@.bytes;
+let ghost pm = old(self).0.piece_mgr;
+let ghost o = offset.val as nat;
+let ghost w0: HeapW = choose|w: HeapW| #[trigger] key_at(b0, pm, w, o);
+proof {
+    assert(slot_ok(b0, o, w0.slots[o]));
+    lemma_slot_bounds(b0, o, w0.slots[o]); lemma_slot_elim(b0, o, w0.slots[o]);
+    lemma_key_used_decodes(b0, o as int, w0.slots[o].size, w0.slots[o].c->Key_0, w0.slots[o].c->Key_1, w0.slots[o].c->Key_2);
+}
+@exit
+proof {
+    if r__ is Ok {
+        assert forall|w: HeapW| #[trigger] key_at(b0, pm, w, o) implies r__->Ok_0@ == w.slots[offset.val as nat].c->Key_0 by {
+            assert(slot_ok(b0, o, w.slots[o]));
+            lemma_slot_elim(b0, o, w.slots[o]);
+            lemma_key_used_decodes(b0, o as int, w.slots[o].size, w.slots[o].c->Key_0, w.slots[o].c->Key_1, w.slots[o].c->Key_2);
+        }
+    }
+}
+@end
+
+@fn src/filedb/inner/key.rs | impl<KT: DbMapKeyType> VarFileKeyCache<KT> | read_piece_only_key
+@serves C01 C15
+@requires
+offset.val != 0, exists|w: HeapW| #[trigger] key_at(old(self).0@.bytes, old(self).0.piece_mgr, w, offset.val as nat)
+@ensures
+okh(old(self).0@, final(self).0@, r), same_but_pos(old(self).0@, final(self).0@), final(self).0.piece_mgr == old(self).0.piece_mgr,
+r is Ok ==> forall|w: HeapW| #[trigger] key_at(old(self).0@.bytes, old(self).0.piece_mgr, w, offset.val as nat) ==> r->Ok_0.bytes() == w.slots[offset.val as nat].c->Key_0
+@entry
+let ghost b0 = old(self).0@.bytes;
+let ghost pm = old(self).0.piece_mgr;
+let ghost o = offset.val as nat;
+let ghost w0: HeapW = choose|w: HeapW| #[trigger] key_at(b0, pm, w, o);
+proof {
+    assert(slot_ok(b0, o, w0.slots[o]));
+    lemma_slot_bounds(b0, o, w0.slots[o]); lemma_slot_elim(b0, o, w0.slots[o]);
+    lemma_key_used_decodes(b0, o as int, w0.slots[o].size, w0.slots[o].c->Key_0, w0.slots[o].c->Key_1, w0.slots[o].c->Key_2);
+}
+@exit
+proof {
+    if r__ is Ok {
+        assert forall|w: HeapW| #[trigger] key_at(b0, pm, w, o) implies r__->Ok_0.bytes() == w.slots[offset.val as nat].c->Key_0 by {
+            assert(slot_ok(b0, o, w.slots[o]));
+            lemma_slot_elim(b0, o, w.slots[o]);
+            lemma_key_used_decodes(b0, o as int, w.slots[o].size, w.slots[o].c->Key_0, w.slots[o].c->Key_1, w.slots[o].c->Key_2);
+        }
+    }
+}
+@end
+
+@fn src/filedb/inner/key.rs | impl<KT: DbMapKeyType> VarFileKeyCache<KT> | read_piece_only_value_offset
+@serves C01 C15
+@requires
+offset.val != 0, exists|w: HeapW| #[trigger] key_at(old(self).0@.bytes, old(self).0.piece_mgr, w, offset.val as nat)
+@ensures
+okh(old(self).0@, final(self).0@, r), same_but_pos(old(self).0@, final(self).0@), final(self).0.piece_mgr == old(self).0.piece_mgr,
+r is Ok ==> forall|w: HeapW| #[trigger] key_at(old(self).0@.bytes, old(self).0.piece_mgr, w, offset.val as nat) ==> r->Ok_0.val == w.slots[offset.val as nat].c->Key_1
+@entry
+let ghost b0 = old(self).0@.bytes;
+let ghost pm = old(self).0.piece_mgr;
+let ghost o = offset.val as nat;
+let ghost w0: HeapW = choose|w: HeapW| #[trigger] key_at(b0, pm, w, o);
+proof {
+    assert(slot_ok(b0, o, w0.slots[o]));
+    lemma_slot_bounds(b0, o, w0.slots[o]); lemma_slot_elim(b0, o, w0.slots[o]);
+    lemma_key_used_decodes(b0, o as int, w0.slots[o].size, w0.slots[o].c->Key_0, w0.slots[o].c->Key_1, w0.slots[o].c->Key_2);
+}
+@exit
+proof {
+    if r__ is Ok {
+        assert forall|w: HeapW| #[trigger] key_at(b0, pm, w, o) implies r__->Ok_0.val == w.slots[offset.val as nat].c->Key_1 by {
+            assert(slot_ok(b0, o, w.slots[o]));
+            lemma_slot_elim(b0, o, w.slots[o]);
+            lemma_key_used_decodes(b0, o as int, w.slots[o].size, w.slots[o].c->Key_0, w.slots[o].c->Key_1, w.slots[o].c->Key_2);
+        }
+    }
+}
+@end
+
+@fn src/filedb/inner/key.rs | impl<KT: DbMapKeyType> VarFileKeyCache<KT> | read_piece_only_bucket_next_offset
+@serves C01 C15
+@requires
+offset.val != 0, exists|w: HeapW| #[trigger] key_at(old(self).0@.bytes, old(self).0.piece_mgr, w, offset.val as nat)
+@ensures
+okh(old(self).0@, final(self).0@, r), same_but_pos(old(self).0@, final(self).0@), final(self).0.piece_mgr == old(self).0.piece_mgr,
+r is Ok ==> forall|w: HeapW| #[trigger] key_at(old(self).0@.bytes, old(self).0.piece_mgr, w, offset.val as nat) ==> r->Ok_0.val == w.slots[offset.val as nat].c->Key_2
+@entry
+let ghost b0 = old(self).0@.bytes;
+let ghost pm = old(self).0.piece_mgr;
+let ghost o = offset.val as nat;
+let ghost w0: HeapW = choose|w: HeapW| #[trigger] key_at(b0, pm, w, o);
+proof {
+    assert(slot_ok(b0, o, w0.slots[o]));
+    lemma_slot_bounds(b0, o, w0.slots[o]); lemma_slot_elim(b0, o, w0.slots[o]);
+    lemma_key_used_decodes(b0, o as int, w0.slots[o].size, w0.slots[o].c->Key_0, w0.slots[o].c->Key_1, w0.slots[o].c->Key_2);
+}
+@exit
+proof {
+    if r__ is Ok {
+        assert forall|w: HeapW| #[trigger] key_at(b0, pm, w, o) implies r__->Ok_0.val == w.slots[offset.val as nat].c->Key_2 by {
+            assert(slot_ok(b0, o, w.slots[o]));
+            lemma_slot_elim(b0, o, w.slots[o]);
+            lemma_key_used_decodes(b0, o as int, w.slots[o].size, w.slots[o].c->Key_0, w.slots[o].c->Key_1, w.slots[o].c->Key_2);
+        }
+    }
+}
+@end
+
+@fn src/filedb/inner/key.rs | impl<KT: DbMapKeyType> VarFileKeyCache<KT> | read_piece_only_size
+@serves C17
+@requires
+offset.val != 0, exists|w: HeapW| #[trigger] heap_ok(old(self).0@.bytes, old(self).0.piece_mgr, w) && w.slots.dom().contains(offset.val as nat)
+@ensures
+okh(old(self).0@, final(self).0@, r), same_but_pos(old(self).0@, final(self).0@), final(self).0.piece_mgr == old(self).0.piece_mgr,
+r is Ok ==> forall|w: HeapW| #[trigger] heap_ok(old(self).0@.bytes, old(self).0.piece_mgr, w) && w.slots.dom().contains(offset.val as nat) ==> r->Ok_0.val == w.slots[offset.val as nat].size
+@entry
+let ghost b0 = old(self).0@.bytes;
+let ghost pm = old(self).0.piece_mgr;
+let ghost o = offset.val as nat;
+let ghost w0: HeapW = choose|w: HeapW| #[trigger] heap_ok(b0, pm, w) && w.slots.dom().contains(o);
+proof {
+    assert(slot_ok(b0, o, w0.slots[o]));
+    lemma_slot_bounds(b0, o, w0.slots[o]); lemma_slot_size_decodes(b0, o, w0.slots[o]);
+}
+@exit
+proof {
+    if r__ is Ok {
+        assert forall|w: HeapW| #[trigger] heap_ok(b0, pm, w) && w.slots.dom().contains(o) implies r__->Ok_0.val == w.slots[o].size by {
+            assert(slot_ok(b0, o, w.slots[o]));
+            lemma_slot_size_decodes(b0, o, w.slots[o]);
+        }
+    }
+}
+@end
+
+@fn src/filedb/inner/key.rs | impl<KT: DbMapKeyType> VarFileKeyCache<KT> | delete_piece
+@serves C06
+@requires
+exists|w: HeapW| #[trigger] key_at(old(self).0@.bytes, old(self).0.piece_mgr, w, offset.val as nat)
+@ensures
+okh(old(self).0@, final(self).0@, r), final(self).0.piece_mgr == old(self).0.piece_mgr,
+r is Ok ==> forall|w: HeapW| #[trigger] key_at(old(self).0@.bytes, old(self).0.piece_mgr, w, offset.val as nat) ==>
+    heap_ok(final(self).0@.bytes, old(self).0.piece_mgr, w_push(w, offset.val as nat)) && r->Ok_0.val == w.slots[offset.val as nat].size,
+r is Ok ==> final(self).0@.unflushed && final(self).0@.unsynced
+@entry
+let ghost b0 = old(self).0@.bytes;
+let ghost pm = old(self).0.piece_mgr;
+let ghost o = offset.val as nat;
+let ghost w0: HeapW = choose|w: HeapW| #[trigger] key_at(b0, pm, w, o);
+proof {
+    assert(slot_ok(b0, o, w0.slots[o]));
+    lemma_slot_bounds(b0, o, w0.slots[o]); lemma_slot_size_decodes(b0, o, w0.slots[o]);
+}
+@before-call push_free_piece_list 1
+proof { assert(can_push(self.0@.bytes, pm, w0, o, old_piece_size.val as nat)); }
+@exit
+proof {
+    if r__ is Ok {
+        assert forall|w: HeapW| #[trigger] key_at(b0, pm, w, o) implies
+            heap_ok(self.0@.bytes, pm, w_push(w, o)) && r__->Ok_0.val == w.slots[o].size by {
+            assert(slot_ok(b0, o, w.slots[o]));
+            lemma_slot_size_decodes(b0, o, w.slots[o]);
+            assert(can_push(b0, pm, w, o, r__->Ok_0.val as nat));
+        }
+    }
+}
+@end
+
+@fn src/filedb/inner/key.rs | impl<KT: DbMapKeyType> KeyPiece<KT> | with_key_value_next
+@ensures
+r.key == key, r.value_offset == value_offset, r.bucket_next_offset == bucket_next_offset
+@end
+
+@fn src/filedb/inner/key.rs | impl<KT: DbMapKeyType> VarFileKeyCache<KT> | write_piece
+@opts rlimit=150
+@serves C06 C09 C08 C01
+@requires
+piece.key.bytes().len() <= 0x1_0000,
+piece.value_offset.val % 8 == 0, piece.bucket_next_offset.val % 8 == 0,
+is_new || piece.offset.val != 0,
+old(self).0@.bytes.len() <= 0x2000_0000_0000_0000,
+exists|w: HeapW| #[trigger] heap_ok(old(self).0@.bytes, old(self).0.piece_mgr, w) && key_pre(old(self).0@.bytes, old(self).0.piece_mgr, w, is_new, piece.offset.val as nat)
+@ensures
+okh(old(self).0@, final(self).0@, r), final(self).0.piece_mgr == old(self).0.piece_mgr,
+r is Ok ==> r->Ok_0.key.bytes() == piece.key.bytes() && r->Ok_0.value_offset == piece.value_offset && r->Ok_0.bucket_next_offset == piece.bucket_next_offset,
+r is Ok ==> forall|w: HeapW| #[trigger] heap_ok(old(self).0@.bytes, old(self).0.piece_mgr, w) && key_pre(old(self).0@.bytes, old(self).0.piece_mgr, w, is_new, piece.offset.val as nat) ==> ({
+    let t = w_write(w, old(self).0@.bytes.len(), is_new, piece.offset.val as nat, key_need(piece.key.bytes(), piece.value_offset.val as nat, piece.bucket_next_offset.val as nat),
+        SlotC::Key(piece.key.bytes(), piece.value_offset.val as nat, piece.bucket_next_offset.val as nat));
+    heap_ok(final(self).0@.bytes, old(self).0.piece_mgr, t.0) && r->Ok_0.offset.val == t.1 && r->Ok_0.size.val == t.2
+}),
+r is Ok ==> final(self).0@.unflushed && final(self).0@.unsynced
+@entry
+let ghost b0 = old(self).0@.bytes;
+let ghost pm = old(self).0.piece_mgr;
+let ghost off = piece.offset.val as nat;
+let ghost kb = piece.key.bytes();
+let ghost vo = piece.value_offset.val as nat;
+let ghost nx = piece.bucket_next_offset.val as nat;
+let ghost cont = SlotC::Key(kb, vo, nx);
+let ghost need = key_need(kb, vo, nx);
+let ghost p = enc_len(kb.len()) + kb.len() + enc_len(vo) + enc_len(nx);
+let ghost w0: HeapW = choose|w: HeapW| #[trigger] heap_ok(b0, pm, w) && key_pre(b0, pm, w, is_new, off);
+let ghost w10: HeapW = if is_new { w0 } else { w_push(w0, off) };
+let ghost mut ba = b0;
+let ghost mut bb = b0;
+let ghost mut fo: nat = 0;
+proof {
+    lemma_roundup_slot(enc_len(((p + 7) / 8) as nat) + p);
+    lemma_tiling_len(b0.len(), w0.slots);
+    axiom_vu64(kb.len()); axiom_vu64(vo / 8); axiom_vu64(nx / 8);
+    if !is_new {
+        assert(slot_ok(b0, off, w0.slots[off]));
+        lemma_slot_bounds(b0, off, w0.slots[off]); lemma_slot_size_decodes(b0, off, w0.slots[off]);
+    }
+}
+@before-call dat_write_piece_one 1
+proof { lemma_key_fits(kb.len(), vo, nx, old_piece_size.val as nat); axiom_vu64((old_piece_size.val / 8) as nat); }
+@before-return 1
+proof {
+    let b1 = self.0@.bytes;
+    assert forall|w: HeapW| #[trigger] heap_ok(b0, pm, w) && key_pre(b0, pm, w, is_new, off) implies ({
+        let t = w_write(w, b0.len(), is_new, off, need, cont);
+        heap_ok(b1, pm, t.0) && piece.offset.val == t.1 && piece.size.val == t.2
+    }) by {
+        assert(slot_ok(b0, off, w.slots[off]));
+        lemma_slot_size_decodes(b0, off, w.slots[off]);
+        lemma_write_inplace(b0, b1, pm, w, off, cont, need);
+    }
+}
+@before-call push_free_piece_list 1
+proof { assert(can_push(self.0@.bytes, pm, w0, off, old_piece_size.val as nat)); }
+@after-call push_free_piece_list 1
+proof { ba = self.0@.bytes; assert(heap_ok(ba, pm, w10)); }
+@before-call pop_free_piece_list 1
+proof { ba = self.0@.bytes; assert(heap_ok(ba, pm, w10)); }
+@after-call pop_free_piece_list 1
+proof {
+    bb = self.0@.bytes; fo = free_piece_offset.val as nat;
+    assert(pop_post(ba, bb, pm, w10, need, fo));
+    let cl = class_idx(need); let k = pop_idx(w10, need);
+    if k < w10.lists[cl].len() {
+        let w2 = w_unlink(w10, cl, k);
+        assert(heap_ok(bb, pm, w2));
+        assert(w2.slots.dom().contains(fo));
+        assert(slot_ok(bb, fo, w2.slots[fo]));
+        lemma_slot_size_decodes(bb, fo, w2.slots[fo]);
+        lemma_slot_bounds(bb, fo, w2.slots[fo]);
+        lemma_key_fits(kb.len(), vo, nx, w2.slots[fo].size);
+        axiom_vu64(w2.slots[fo].size / 8);
+    } else {
+        lemma_key_fits(kb.len(), vo, nx, need);
+        axiom_vu64(need / 8);
+    }
+}
+@exit
+proof {
+    if r__ is Ok {
+        let b1 = self.0@.bytes;
+        let rp = r__->Ok_0;
+        assert forall|w: HeapW| #[trigger] heap_ok(b0, pm, w) && key_pre(b0, pm, w, is_new, off) implies ({
+            let t = w_write(w, b0.len(), is_new, off, need, cont);
+            heap_ok(b1, pm, t.0) && rp.offset.val == t.1 && rp.size.val == t.2
+        }) by {
+            if !is_new {
+                assert(slot_ok(b0, off, w.slots[off]));
+                lemma_slot_size_decodes(b0, off, w.slots[off]);
+                assert(can_push(b0, pm, w, off, w.slots[off].size));
+                assert(heap_ok(ba, pm, w_push(w, off)));
+            }
+            let w1 = if is_new { w } else { w_push(w, off) };
+            assert(heap_ok(ba, pm, w1));
+            assert(pop_post(ba, bb, pm, w1, need, fo));
+            lemma_write_post(b0, ba, bb, b1, pm, w, is_new, off, cont, need, fo, rp.offset.val as nat, rp.size.val as nat);
+        }
+    }
+}
+@end
+
+@fn src/filedb/inner/key.rs | impl<KT: DbMapKeyType> VarFileKeyCache<KT> | add_key_piece
+@serves C01 C06
+@requires
+key.bytes().len() <= 0x1_0000, value_offset.val % 8 == 0, bucket_next_offset.val % 8 == 0,
+old(self).0@.bytes.len() <= 0x2000_0000_0000_0000,
+exists|w: HeapW| #[trigger] heap_ok(old(self).0@.bytes, old(self).0.piece_mgr, w)
+@ensures
+okh(old(self).0@, final(self).0@, r), final(self).0.piece_mgr == old(self).0.piece_mgr,
+r is Ok ==> r->Ok_0.key.bytes() == key.bytes() && r->Ok_0.value_offset == value_offset && r->Ok_0.bucket_next_offset == bucket_next_offset,
+r is Ok ==> forall|w: HeapW| #[trigger] heap_ok(old(self).0@.bytes, old(self).0.piece_mgr, w) ==> ({
+    let t = w_alloc(w, old(self).0@.bytes.len(), key_need(key.bytes(), value_offset.val as nat, bucket_next_offset.val as nat), SlotC::Key(key.bytes(), value_offset.val as nat, bucket_next_offset.val as nat));
+    heap_ok(final(self).0@.bytes, old(self).0.piece_mgr, t.0) && r->Ok_0.offset.val == t.1 && r->Ok_0.size.val == t.2
+}),
+r is Ok ==> final(self).0@.unflushed && final(self).0@.unsynced
 @end
 @endmod
